@@ -259,6 +259,11 @@ impl From<std::io::Error> for CommandError {
     }
 }
 
+/// The reply to `:skip` when the current stack frame has no pending
+/// expression.
+pub(crate) const NOTHING_TO_SKIP: &str =
+    "Nothing to skip: no expression is being evaluated in this stack frame.";
+
 /// Actions that require an evaluation loop, and can't be run during command handling.
 #[derive(Debug)]
 pub(crate) enum EvalAction {
